@@ -241,7 +241,7 @@ class _DB:
     async def select_and_fetchone(self, sql, args=None, query_name=None):
         if 'FROM batch_updates' not in sql:
             raise _Harness(f'unexpected query {sql!r}')
-        return {'state': 'open', 'format_version': 7, 'committed': False, 'start_job_id': 1, 'start_job_group_id': 1}
+        return {'state': 'open', 'format_version': 7, 'committed': False, 'start_job_id': 1, 'update_n_jobs': 1000000, 'n_jobs': 1000000, 'start_job_group_id': 1}
 
     def start(self, read_only=False):
         return _Ctx(self.cap)
